@@ -71,13 +71,21 @@ class OrchWorld(AgentWorld):
     def mgt(self, method, arg=None):
         self.orch._mgt_method(method, arg)
 
-    def solve(self, late=()):
+    def solve(self, late=(), last=()):
         """deploy_computations() + run(), the way commands/solve.py drives the orchestrator.
-        late: agents (hosting nothing) whose thread only starts after the orchestrator has handled the run request"""
+        late: agents (hosting nothing) whose thread only starts after the orchestrator has handled the run request
+        last: agents whose thread only starts once every other agent has registered and the orchestrator is idle"""
         m = self.orch.mgt
-        for n in late:
+        for n in list(late) + list(last):
             if n in getattr(self, "unbooted", []):
                 self.unbooted.remove(n)
+        if last:
+            self.run(max_steps=40000, until=lambda: m.all_registered.is_set())
+            for n in last:
+                if n not in self.booted:
+                    # (the orchestrator may already - wrongly - consider everybody registered: the deployment then goes ahead
+                    # without this agent, exactly as it would with real threads)
+                    self.unbooted = getattr(self, "unbooted", []) + [n]
         if not self.until(lambda: m.all_registered.is_set(), "registration"):
             return "not all agents registered"
         self.mgt("_orchestrator_deploy_computations")
